@@ -30,15 +30,17 @@ OPERANDS_T = {
     '$': ['""', '"a"', '"b"', '"ab"'],
 }
 OPERANDS_Q = {
-    'I': ['0', '1', '-2', '7', '32767', '(-32767 - 1)'],
-    'L': ['0&', '-1&', '7&', '32768', '2147483647', '(-2147483647 - 1)'],
-    'S': ['0!', '0.5', '-2.5', '7!', '16777216!', '3.402823e38', '1e-38'],
-    'D': ['0.1#', '2.5#', '-7#', '2147483648#', '1.7976931348623157d308'],
+    'I': ['0', '-2', '7', '32767', '(-32767 - 1)'],
+    'L': ['7&', '32768', '2147483647', '(-2147483647 - 1)'],
+    'S': ['0!', '0.5', '-2.5', '3.402823e38', '1e-38'],
+    'D': ['0.1#', '-7#', '2147483648#', '1.7976931348623157d308'],
     '$': ['""', '"a"', '"ab"'],
 }
 TER_VALUES_T = ['2', '32767', '70000', '0.5', '0.1#']
 TER_VALUES_Q = ['2', '70000', '0.5']
 TER_OPS_Q = ['+', '*', '/', '\\', '^', 'AND', '<']
+
+QUICK_HUGE_POWER_BASES = ('0', '7', '(-2147483647 - 1)')
 
 PACK = 20
 
@@ -75,7 +77,13 @@ def cells_of(item, tier):
     if form == 'un':
         return [(form, (o,), opnds) for o in UN_OPS]
     if form == 'bin':
-        return [(form, (o,), opnds) for o in BIN_OPS]
+        ops = BIN_OPS
+        if tier == 'quick' and opnds[1] == '2147483647' and opnds[0] not in QUICK_HUGE_POWER_BASES:
+            # every |base| >= 2 hangs the folder here (known finding); each
+            # confirmation costs SHORT_LIMIT + LONG_LIMIT seconds, so the quick
+            # tier keeps three bases and leaves the rest to the thorough tier
+            ops = [o for o in BIN_OPS if o != '^']
+        return [(form, (o,), opnds) for o in ops]
     ops = TER_OPS_Q if tier == 'quick' else BIN_OPS
     return [(form, (o1, o2), opnds) for o1 in ops for o2 in ops]
 
@@ -93,9 +101,13 @@ def expr_text(cell, names=None):
     x = names or opnds
     if form == 'un':
         return _un(ops[0], x[0])
+    a = x[0]
+    if ops[0] == '^' and a.startswith('-'):
+        # unary minus binds weaker than ^: keep the operand a (negative) value
+        a = f'({a})'
     if form == 'bin':
-        return f'{x[0]} {ops[0]} {x[1]}'
-    return f'({x[0]} {ops[0]} {x[1]}) {ops[1]} {x[2]}'
+        return f'{a} {ops[0]} {x[1]}'
+    return f'({a} {ops[0]} {x[1]}) {ops[1]} {x[2]}'
 
 
 # ---------------------------------------------------------------------------
@@ -109,7 +121,10 @@ def calibrate(text):
     """-> (type name, value) of an operand as the O0 machine sees it"""
     c = _calib.get(text)
     if c is None:
-        r, out = impl.compile_and_run('PRINT ' + text, 0, False, typed_prints=True)
+        for _ in range(3):     # a spurious timeout on an overloaded machine must not end the run
+            r, out = impl.compile_and_run('PRINT ' + text, 0, False, typed_prints=True)
+            if r.kind != 'timeout':
+                break
         if not r.ok or out.end not in ('halt', 'eoc') or not out.prints or not out.prints[0]:
             raise RuntimeError(f'C02 consts: operand {text!r} cannot be calibrated: '
                                f'{r.brief()} {out and out.summary()}')
@@ -126,13 +141,24 @@ def var_accepted(vexpr):
     (depends on operator and operand types only)"""
     v = _varok.get(vexpr)
     if v is None:
-        r = impl.compile_text('PRINT ' + vexpr, 0, False, want_listing=False)
+        r = compile_confirmed('PRINT ' + vexpr, 0)
         v = _varok[vexpr] = r.kind
     return v == 'ok'
 
 
+SHORT_LIMIT = 3.0      # a compile that takes longer is repeated with LONG_LIMIT
+LONG_LIMIT = 20.0      # before it is called a hang
+
+
+def compile_confirmed(src, opt, dbg=False):
+    r = impl.compile_text(src, opt, dbg, limit=SHORT_LIMIT, want_listing=False)
+    if r.kind == 'timeout':
+        r = impl.compile_text(src, opt, dbg, limit=LONG_LIMIT, want_listing=False)
+    return r
+
+
 def run_prog(src, opt, dbg=False):
-    r = impl.compile_text(src, opt, dbg, want_listing=False)
+    r = compile_confirmed(src, opt, dbg)
     if not r.ok:
         return r, None
     try:
@@ -190,6 +216,22 @@ def same_items(a, b):
         for x, y in zip(a, b))
 
 
+def sign_of_zero_only(a, b):
+    """the two item lists differ only in the sign of a floating zero"""
+    if len(a) != len(b):
+        return False
+    for x, y in zip(a, b):
+        if isinstance(x, str) or isinstance(y, str):
+            if x != y:
+                return False
+        elif x[0] != y[0]:
+            return False
+        elif repr(x[1]) != repr(y[1]):
+            if not (isinstance(x[1], float) and isinstance(y[1], float) and x[1] == 0.0 and y[1] == 0.0):
+                return False
+    return True
+
+
 # ---------------------------------------------------------------------------
 # guises of the constant version
 
@@ -241,12 +283,41 @@ def vclass(text):
     return s + '-big'
 
 
+def operand_fit(opnds):
+    """input-side class: is there a floating operand whose rounded value no
+    integral type can hold (the integral operators convert their operands)"""
+    for o in opnds:
+        t, v = calibrate(o)
+        if t in ('SINGLE', 'DOUBLE') and not (-2147483648.5 <= v < 2147483647.5):
+            return 'float-beyond-long'
+    return 'fits'
+
+
+def single_literal(opnds):
+    """input-side class: is there a SINGLE operand whose decimal text is not
+    exactly a SINGLE value (the machine holds the rounded value)"""
+    seen = 'none'
+    for o in opnds:
+        t, v = calibrate(o)
+        if t != 'SINGLE':
+            continue
+        seen = 'exact' if seen == 'none' else seen
+        try:
+            if float(o.rstrip('!')) != v:
+                return 'inexact'
+        except ValueError:
+            pass
+    return seen
+
+
 def features(cell, guise, divergence, levels):
     form, ops, opnds = cell
     return {'family': 'consts', 'divergence': divergence, 'guise': guise, 'form': form,
             'op': ' '.join(ops),
             'types': ''.join(SUFFIX[calibrate(o)[0]] for o in opnds),
             'values': ','.join(vclass(o) for o in opnds),
+            'operand_fit': operand_fit(opnds),
+            'single_literal': single_literal(opnds),
             'levels': ','.join(f'O{o}' for o in levels)}
 
 
@@ -257,6 +328,7 @@ def show(x):
 class Acc:
     def __init__(self):
         self.viol = {}     # (cell idx, guise, divergence) -> [levels, expected, observed, src]
+        self.hung = set()  # cells whose constant form hung the compiler once (not tried again)
         self.st = {'cs_evaluations': 0, 'cs_nontrivial': 0, 'cs_cells': 0, 'cs_folded': 0,
                    'cs_status': {}, 'cs_guise': {}, 'cs_results': set(), 'cs_compiles': 0}
 
@@ -296,8 +368,7 @@ def _check_pack(acc, cells, pack, ref, guise, fmt, opt, width):
         k = pack[0]
         exp = {'run-time evaluation (O0, typed variables)': show(ref[k][1])}
         if not r.ok:
-            div = 'compiler-crash' if r.kind in ('crash', 'timeout') else 'compile-failure'
-            acc.add(k, guise, div, opt, exp, r.brief(), src)
+            acc.add(k, guise, _fail_div(r), opt, exp, r.brief(), src)
         else:
             acc.add(k, guise, 'error-instead-of-value', opt, exp,
                     {'end': out.end, 'trap': out.trap, 'exc': out.exc}, src)
@@ -309,10 +380,18 @@ def _check_pack(acc, cells, pack, ref, guise, fmt, opt, width):
             if len(got) == len(want) and any(not isinstance(x, str) and x[0] != y[0]
                                              for x, y in zip(got, want)):
                 div = 'type'
+            elif sign_of_zero_only(got, want):
+                div = 'sign-of-zero'
             else:
                 div = 'value'
             acc.add(k, guise, div, opt, {'run-time evaluation (O0, typed variables)': show(want)},
                     show(got), '\n'.join(fmt(expr_text(cells[k]), k)))
+
+
+def _fail_div(r):
+    if r.kind == 'timeout':
+        return 'compiler-timeout'
+    return 'compiler-crash' if r.kind == 'crash' else 'compile-failure'
 
 
 def check_failing_cell(acc, cells, k, ref, guise):
@@ -321,10 +400,18 @@ def check_failing_cell(acc, cells, k, ref, guise):
     src = '\n'.join(fmt(expr_text(cells[k]), k))
     want = ref[k]
     res = []
+    if k in acc.hung:
+        acc.bump('cs_status', 'not-retried-after-compiler-hang')
+        return
     for opt in LEVELS:
         r, out = run_prog(src, opt)
         acc.st['cs_compiles'] += 1
         res.append((opt, r, out))
+        if r.kind == 'timeout':
+            # one confirmed hang per cell is enough; the remaining levels and
+            # guises of this cell are not tried (each costs LONG_LIMIT seconds)
+            acc.hung.add(k)
+            break
     exp = {'run-time evaluation (O0, typed variables)': {'trap': want[1]}}
     if guise != 'print' and all(r.kind == 'compile' for _, r, _ in res) and \
             len(set(r.err_code for _, r, _ in res)) == 1:
@@ -334,8 +421,7 @@ def check_failing_cell(acc, cells, k, ref, guise):
         return
     for opt, r, out in res:
         if not r.ok:
-            div = 'compiler-crash' if r.kind in ('crash', 'timeout') else 'compile-failure'
-            acc.add(k, guise, div, opt, exp, r.brief(), src)
+            acc.add(k, guise, _fail_div(r), opt, exp, r.brief(), src)
         elif out.end != 'trap' or out.trap != want[1]:
             obs = {'end': out.end, 'trap': out.trap, 'exc': out.exc, 'prints': show(out.prints)}
             acc.add(k, guise, 'value-instead-of-error' if out.end in ('halt', 'eoc') else 'error-class',
@@ -350,13 +436,13 @@ def check_rejected_cell(acc, cells, k):
     src = 'PRINT ' + expr_text(cells[k])
     verd = []
     for opt in LEVELS:
-        r = impl.compile_text(src, opt, False, want_listing=False)
+        r = compile_confirmed(src, opt)
         acc.st['cs_compiles'] += 1
         verd.append((opt, r))
     v0 = verd[0][1]
     for opt, r in verd[1:]:
         if r.kind != v0.kind or (r.rejected and r.err_code != v0.err_code):
-            div = 'compiler-crash' if r.kind in ('crash', 'timeout') else 'verdict'
+            div = _fail_div(r) if r.kind in ('crash', 'timeout') else 'verdict'
             acc.add(k, 'print', div, opt, 'O0: ' + v0.brief(), r.brief(), src)
 
 
@@ -376,8 +462,8 @@ def measure_folding(acc, cells, ks):
     for p in range(0, len(ks), PACK):
         pack = ks[p:p + PACK]
         src = '\n'.join('PRINT ' + expr_text(cells[k]) for k in pack)
-        r0 = impl.compile_text(src, 0, True, want_listing=False)
-        r1 = impl.compile_text(src, 1, True, want_listing=False)
+        r0 = impl.compile_text(src, 0, True, limit=SHORT_LIMIT, want_listing=False)
+        r1 = impl.compile_text(src, 1, True, limit=SHORT_LIMIT, want_listing=False)
         if not (r0.ok and r1.ok):
             continue
         b0, b1 = stmt_bytes(r0.binary), stmt_bytes(r1.binary)
@@ -425,9 +511,9 @@ def do_item(item, tier, acc):
     for k in live:
         if ref[k][0] in ('hostexc', 'other'):
             for opt in LEVELS:
-                r = impl.compile_text('PRINT ' + expr_text(cells[k]), opt, False, want_listing=False)
+                r = compile_confirmed('PRINT ' + expr_text(cells[k]), opt)
                 if r.kind in ('crash', 'timeout'):
-                    acc.add(k, 'print', 'compiler-crash', opt, 'a module (run-time evaluation is itself broken: '
+                    acc.add(k, 'print', _fail_div(r), opt, 'a module (run-time evaluation is itself broken: '
                             + str(ref[k][1]) + ')', r.brief(), 'PRINT ' + expr_text(cells[k]))
     # static array bound
     dk = [k for k in okc if dim_eligible(ref[k])]
@@ -437,7 +523,12 @@ def do_item(item, tier, acc):
         dk = [k for k in dk if k in dref]
         check_ok_cells(acc, cells, dk, dref, 'dim', width)
         acc.bump('cs_guise', 'dim', len(dk))
-    folded = measure_folding(acc, cells, okc + bad)
+    # a failing expression as a static bound: the same trap when the module
+    # runs, or one located diagnostic at every level - never a compiler crash
+    for k in bad:
+        check_failing_cell(acc, cells, k, ref, 'dim')
+    acc.bump('cs_guise', 'dim-failing', len(bad))
+    folded = measure_folding(acc, cells, [k for k in okc + bad if k not in acc.hung])
     acc.st['cs_folded'] += len(folded)
     acc.st['cs_nontrivial'] += len(folded | set(bad))
     acc.st['cs_evaluations'] += len(live)
@@ -451,6 +542,7 @@ def worker(chunk, tier):
     for item in chunk:
         item = (item[0], tuple(item[1]))
         acc.viol = {}
+        acc.hung = set()
         cells = do_item(item, tier, acc)
         for (k, guise, div), (levels, exp, obs, src) in acc.viol.items():
             cell = cells[k]
@@ -475,6 +567,8 @@ def describe(tier):
                        'DIM d(e) AS INTEGER : z% = 7 : d(UBOUND(d)) = 5 : PRINT UBOUND(d); z%; d(UBOUND(d))  '
                        '(cells whose run-time value is in 0..40)'],
             'levels': ['O0', 'O1', 'O2'],
+            'cut': ('quick: a ^ 2147483647 only for a in %s' % (QUICK_HUGE_POWER_BASES,)) if tier == 'quick' else None,
+            'compile_limits_s': [SHORT_LIMIT, LONG_LIMIT],
             'reference': 'operands assigned to typed variables (types calibrated by PRINT <operand> at O0), '
                          'expression over the variables compiled at O0'}
 
